@@ -189,7 +189,11 @@ def ctorPart (O : Oracles) (w : World) (j : Json) (r : R ClassDef) : Except Stri
       | some x => (← x.getArr?).toList.mapM kwOfJson
     let res := kws.map fun kw =>
       Json.mkObj [("res", resToJson (instantiateOrd O c ord kw)),
-                  ("errs", strsJ (ctorErrs O c kw))]
+                  ("errs", strsJ (ctorErrs O c kw ++ ctorErrs O c (mappingArgs c kw))),
+                  ("via", Json.mkObj (Entry.all.map fun e =>
+                    (e.name, match instantiateVia O c ord e kw with
+                      | .ok _ => Json.str "ok"
+                      | .error err => Json.str (errName err))))]
     pure [("struct", structToJson w' c ord), ("ctor", Json.arr res.toArray)]
 
 def rJson {α} (f : α → Json) : R α → Json
@@ -258,7 +262,15 @@ def step (O : Oracles) (s : St) (j : Json) : Except String St := do
     let n ← (← j.getObjVal? "cls").getStr?
     let kw ← kwOfJson (← j.getObjVal? "kw")
     match s.w.find n with
-    | some c => pure { s with out := s.out ++ [resToJson (instantiate O c kw)] }
+    | some c =>
+      let via := Json.mkObj (Entry.all.map fun e =>
+        (e.name, match instantiateVia O c c.sig.req e kw with
+          | .ok _ => Json.str "ok"
+          | .error err => Json.str (errName err)))
+      let base := match instantiate O c kw with
+        | .ok v => [("ok", valToJson v)]
+        | .error e => [("err", Json.str (errName e))]
+      pure { s with out := s.out ++ [Json.mkObj (base ++ [("via", via)])] }
     | none => pure { s with out := s.out ++ [Json.mkObj [("err", .str "model-domain: unknown class")]] }
   | "assign" =>
     let n ← (← j.getObjVal? "cls").getStr?
